@@ -59,6 +59,7 @@ fn main() {
                 "C19" => checks::c19::run(&tier, &args),
                 "C10" => checks::pubd::run_c10(&tier, &args),
                 "C11" => checks::pubd::run_c11(&tier, &args),
+                "C17" => checks::c17::run(&tier, &args),
                 _ => { eprintln!("unknown property {id}"); 2 }
             };
             std::process::exit(code);
